@@ -278,8 +278,7 @@ class Two(Packet):
         table, hs = metas[gi]
         obs_m = split_obs(mseq)
         if obs_m[0] != [1]:
-            dist['heap_not_fresh'] += 1      # a selector hands out packet instances (finding D9): outside the heap model
-            continue
+            dist['heap_not_fresh'] += 1      # a selector hands out packet instances: every parse copies them (D9 fix), compared too
         obs_m = obs_m[1:]
         obs_i = flat[gi]['observations'][hi]
         dist['heap_histories'] += 1
